@@ -237,6 +237,11 @@ def run_unit(unit):
             fd, path = tempfile.mkstemp(suffix='.json', prefix='vmc_c19_')
             os.close(fd)
             try:
+                # the path has a past: another design was saved to it and loaded from it before (save, load, save again under
+                # the same name, load)
+                other = make_lens(['conic'] if 'conic' not in feats else ['sphere'], v)
+                save_optiland_file(other, path)
+                load_optiland_file(path)
                 save_optiland_file(o, path)
                 return load_optiland_file(path)
             finally:
